@@ -562,18 +562,24 @@ MANIFEST = {
         "Proof. The F-vector entries of formulate(parametrize=False) for n = 1, 2 (NonRelativisticPVector, RelativisticPVector with and "
         "without return_f_hat), the library's K and P parametrisations, the full formulate(n, n_R) results for n, n_R ∈ {1,2}, the "
         "Breit-Wigner functions and an occurrence table are re-translated from the working tree on every run (formulate is called with a "
-        "marker phase-space class, marker angular momentum and marker radius). 54 theorems re-checked by the kernel: (1−iK)F = P and "
+        "marker phase-space class, marker angular momentum and marker radius). 57 theorems re-checked by the kernel: (1−iK)F = P and "
         "(1−iK̂ρ)F̂ = P with K̂ = (√ρ*)⁻¹K(√ρ)⁻¹, F = √ρF̂ for the regenerated entries wherever the denominators of the symbolic inverse do "
         "not vanish, and unconditionally for real symmetric K and positive ρ (denominators are proved non-zero); formulate = vector "
         "expression ∘ (library's K, P parametrisations), hence the equation holds for formulate(n, n_R) with real parameters (relativistic: "
         "phase-space factors positive at s and at the pole masses); for every matrix size, F = (1−iK)⁻¹P solves the equation for Hermitian "
-        "K (abstract, all n); the occurrence table contains exactly the marker phase-space class / L / radius for the relativistic classes "
-        "and nothing for the non-relativistic ones (decide); n = n_R = 1: NonRelativisticKMatrix = relativistic_breit_wigner with width "
-        "γ²Γ (so the BW itself at γ = 1), γ·F_nonrel = β·relativistic_breit_wigner(γ²Γ), and RelativisticPVector with the √ρ factors of the "
-        "matrix expression set to 1 equals β·relativistic_breit_wigner_with_ff at γ = 1, as the documentation states. Bounded: entry-level "
-        "theorems for n ≤ 2, n_R ≤ 2; n = 3 non-relativistic only numerically (thorough), n = 3 relativistic P-vector not extractable "
-        "(symbolic inverse does not finish) — covered by the abstract all-n theorem only; the argument-honouring fact is checked for the "
-        "translated configurations by the kernel and for every phase-space implementation of dynamics/phasespace.py by the oracle."
+        "K (abstract, all n); the P parametrisations are the documented ones (P_i = Σ_R β⁰_Ri g_Ri/(m_R²−s) with the K-matrix's own residue "
+        "functions g_Ri and β⁰ = β√(mΓ); relativistic: Σ_R β_R γ_Ri m_R Γ_Ri B_i(s)/(m_R²−s) — the documentation's Γ⁰_R is read as the "
+        "partial width Γ_Ri, as the code does and as the documented n = 1 reduction requires); the occurrence table (all four classes, "
+        "n, n_R ∈ {1,2}, hat on/off; itemised per pole × channel: every energy-dependent width, form factor and phase-space node) contains "
+        "exactly the marker phase-space class / L / radius for the relativistic classes, with every pole × channel covered, and nothing for "
+        "the non-relativistic ones (decide); n = n_R = 1: NonRelativisticKMatrix = relativistic_breit_wigner with width γ²Γ (the BW itself "
+        "at γ = 1), γ·F_nonrel = β·relativistic_breit_wigner(γ²Γ), and RelativisticPVector with the √ρ factors of the matrix expression set "
+        "to 1 equals β·relativistic_breit_wigner_with_ff at γ = 1, as the documentation states. Bounded: entry-level theorems for n ≤ 2, "
+        "n_R ≤ 2; n = 3 numerically in the thorough tier — non-relativistic as the library returns it; relativistic P-vector: the library's "
+        "own call does not return (sympy's default symbolic inverse does not finish, notes/findings_C10.md; probed with a cap every "
+        "thorough run), so its residuals are evaluated with the library's code unchanged but sympy's inversion method replaced by the "
+        "adjugate method, and the Lean cover is the all-n theorem only; the argument-honouring fact is checked for the translated "
+        "configurations by the kernel and for every phase-space implementation of dynamics/phasespace.py by the oracle."
     ),
     "level_note": (
         "Trusted: Lean kernel + Mathlib (axioms propext, Classical.choice, Quot.sound); the translator incl. leaf abstraction of "
